@@ -48,6 +48,7 @@ const Prelude = `(set-option :produce-models true)
 (assert (forall ((s Str) (lo Int) (hi Int)) (! (=> (and (<= 0 lo) (<= lo hi) (<= hi (slen s))) (= (slen (str.sub s lo hi)) (- hi lo))) :pattern ((str.sub s lo hi)))))
 ; streams, map order, bit operations (uninterpreted unless a theory file says more)
 (declare-fun sid (Iface) Int)
+(declare-fun rootid (Int) Int)
 (declare-fun mapord (Int Int) Int)
 (declare-fun band8 (Int Int) Int) (declare-fun bor8 (Int Int) Int) (declare-fun bxor8 (Int Int) Int) (declare-fun bandnot8 (Int Int) Int) (declare-fun shl8 (Int Int) Int) (declare-fun shr8 (Int Int) Int)
 (declare-fun band16 (Int Int) Int) (declare-fun bor16 (Int Int) Int) (declare-fun bxor16 (Int Int) Int) (declare-fun bandnot16 (Int Int) Int) (declare-fun shl16 (Int Int) Int) (declare-fun shr16 (Int Int) Int)
